@@ -22,16 +22,28 @@ def owner(clause):
     return clause in ('clear-pan-in-result', 'reading-differs', 'rejected-a-must-accept', 'accepted-a-must-reject')
 
 
-def masked_config(bit, proc, numeric=False):
+def dropped_bits(bit):
+    """elements left out of a partial site configuration: the nearest two plain elements below `bit`, and element 3"""
+    bc = PKG['bit_config']
+    low = [b for b in sorted(bc, key=int) if 1 < int(b) < int(bit) and not bc[b].get('field_processor')]
+    return sorted(set(low[-2:] + (['3'] if int(bit) > 3 else [])), key=int)
+
+
+def masked_config(bit, proc, numeric=False, partial=False):
     bc = copy.deepcopy(PKG['bit_config'])
     bc[bit]['field_processor'] = proc
     if numeric:      # the processor on an element that is also typed as a number
         bc[bit]['field_python_type'] = 'int'
+    if partial:      # a site configuration that lists only some elements
+        for b in dropped_bits(bit):
+            del bc[b]
     return bc
 
 
 def _drive(args):
-    seed, bit, proc, codec, numeric = args
+    seed, bit, proc, codec, numeric, partial = args
+    if partial:
+        return _drive_partial(seed, bit, proc, codec)
     bc = masked_config(bit, proc, numeric)
     if int(bit) % 2 == 0 and not numeric:
         # same configuration OBJECT: first used without the processor, then masking is switched on in place
@@ -63,6 +75,33 @@ def _drive(args):
         t = isocheck.roundtrip_trace(tid, m, bc, codec, bool(tid & 1), '%s on DE%s, card number of %d characters' % (proc, bit, n),
                                      secret=pan)
         out.append(t)
+    return out
+
+
+def _drive_partial(seed, bit, proc, codec):
+    """messages that carry an element the (partial) configuration does not list, in front of the masked element: the
+    bytes are produced under the complete configuration, decoding happens under the partial one"""
+    full = masked_config(bit, proc)
+    part = masked_config(bit, proc, partial=True)
+    alpha = isoc.alphabet(codec)
+    out = []
+    drops = dropped_bits(bit)
+    for tid in range(8):
+        r = drv.rng(seed, 'c16part', bit, proc, tid)
+        n = (16, 19, 13, 10, 16, 18, 15, 12)[tid]
+        pan = ''.join('1234567890'[(i * 3 + tid) % 10] if i % 5 else '9876543210'[(i + tid) % 10] for i in range(n))
+        m = {'MTI': '1240', 'DE' + bit: pan}
+        if tid < 6:
+            for b in ([drops[tid % len(drops)]] if tid < 4 else drops):
+                m['DE' + b] = isoc.value_for(r, full[b], alpha)
+        hexb = bool(tid & 1)
+        _, data = isoc.do_dumps(m, codec, full, hexb)
+        if data is None:
+            continue
+        e, d = isoc.do_loads(data, codec, part, hexb, secret=pan)
+        out.append({'tid': tid, 'hex': hexb, 'events': [e], '_m': repr(m)[:400], '_d': repr(d)[:300] if d is not None else None,
+                    '_desc': '%s on DE%s under a configuration that does not list DE%s; message carries %s' % (
+                        proc, bit, ', DE'.join(drops), sorted(k for k in m if k != 'MTI'))})
     return out
 
 
@@ -109,10 +148,13 @@ def run(rep, wd, tier, seed):
     for b in var:
         for proc in ('PAN', 'PAN-PREFIX'):
             for codec in (('latin_1', 'cp500') if tier == 'thorough' else ('latin_1' if int(b) % 2 else 'cp500',)):
-                jobs.append((seed, b, proc, codec, False))
+                jobs.append((seed, b, proc, codec, False, False))
         if int(b) % 3 == 2 or tier == 'thorough':
             for proc in ('PAN', 'PAN-PREFIX'):
-                jobs.append((seed, b, proc, 'latin_1', True))
+                jobs.append((seed, b, proc, 'latin_1', True, False))
+    for b in var:
+        if int(b) > 4 and (int(b) % 2 == 0 or tier == 'thorough'):
+            jobs.append((seed, b, ('PAN', 'PAN-PREFIX')[(int(b) // 2) % 2], 'cp500' if int(b) % 4 == 0 else 'latin_1', False, True))
     outs = isocheck._pool(_drive, jobs)
     rep.extra['masking_configurations'] = len(jobs)
     rep.extra['elements_given_the_processor'] = sorted(var, key=int)
@@ -123,7 +165,7 @@ def run(rep, wd, tier, seed):
 
     def one(i):
         j = jobs[i]
-        c = isoc.consts(masked_config(j[1], j[2], j[4]), j[3])
+        c = isoc.consts(masked_config(j[1], j[2], j[4], j[5]), j[3])
         return core.tlc_batch('Trace_Iso', 'Trace_Iso.cfg', wd, {'consts': c, 'traces': outs[i]}, 'mask-%d' % i, workers=1)
     with ThreadPoolExecutor(core.NCPU) as ex:
         res = list(ex.map(one, range(len(jobs))))
